@@ -180,7 +180,8 @@ class Statement(object):
         """
         try:
             self.code_pkg = self.operand.translate()
-            self.fixed_size = not (self.code_pkg.additional_needs_resolution or self.code_pkg.post_byte_choices)
+            needs_resolution = self.code_pkg.additional_needs_resolution and not self.operand.address_offset
+            self.fixed_size = not (needs_resolution or self.code_pkg.post_byte_choices)
         except Exception as error:
             raise TranslationError(str(error), self)
 
@@ -295,7 +296,15 @@ class Statement(object):
                 statements[self.operand.value.int].code_pkg.address, self.operand.address_digits()
             )
 
-        if self.code_pkg.additional_needs_resolution:
+        if self.operand.address_offset:
+            left = self.operand.left
+            if left.is_address_expression():
+                target = left.calculate_address_offset(statements)
+            else:
+                target = statements[left.int].code_pkg.address
+            self.code_pkg.additional = fit_value(target, 4)
+
+        elif self.code_pkg.additional_needs_resolution:
             if self.operand.is_indexed() and self.operand.left and self.operand.left.is_address_expression():
                 target = self.operand.left.calculate_address_offset(statements)
                 relative_address = -target.int if target.is_negative() else target.int
